@@ -876,7 +876,8 @@ INTERPRETERS = [
     dict(label="dev-mode", flags=["-X", "dev"], env={}),
     dict(label="warnings-error", flags=["-W", "error::UserWarning", "-W", "error::RuntimeWarning"], env={}),
     dict(label="threads-before-import", flags=[], env={"YAW_NUM_THREADS": "4"}),
-    dict(label="optimize2-unbuffered", flags=["-OO", "-u"], env={"PYTHONWARNINGS": "always"}),
+    # (-OO is not usable: the third-party treecorr formats its own docstrings at import time)
+    dict(label="optimize-unbuffered", flags=["-O", "-u"], env={"PYTHONWARNINGS": "always"}),
     dict(label="no-threads-variable", flags=["-B"], env={"YAW_NUM_THREADS": None}),
 ]
 
@@ -920,6 +921,11 @@ def run_interpreters(ctx, base, grid, dims, loggers, modules):
             out, err = "", "timeout"
         cid0 = ("interpreter", it["label"])
         line = [x for x in out.splitlines() if x.startswith("C16AMB ")]
+        unusable = [x for x in out.splitlines() if x.startswith("C16AMB-UNUSABLE ")]
+        if unusable:      # the library cannot be imported at all under this switch: nothing is generated
+            ctx.bump("ambient_interpreter_unusable:" + it["label"])
+            ctx.log("interpreter %s: library not importable (%s)" % (it["label"], unusable[-1][16:200]))
+            continue
         if p.returncode != 0 or not line:
             ctx.count(key=cid0, kind="ambient/interpreter/raised")
             ctx.fail("c16-raises:interpreter-exit:ambient-interpreter",
